@@ -483,6 +483,39 @@ func c04OtherLimits(w *fw.W, idx int) {
 		return
 	}
 	w.CoverKey("sleep-cancel")
+	// the same for contexts that also carry a (distant) deadline, cancelled explicitly
+	// or through their parent while the sleep is pending; decided by the outcome
+	// (a cancelled sleep answers context-cancelled, an uninterrupted one returns ())
+	for _, variant := range []string{"deadline+self-cancel", "deadline+cancel", "deadline+parent-cancel", "cancel-only"} {
+		var cx context.Context
+		stop := func() {}
+		switch variant {
+		case "deadline+self-cancel":
+			cx = &c04DeadlineCtx{c04DoneCtx{scriptedCtx: newScriptedCtx(0)}}
+		case "deadline+cancel":
+			c, cancel := context.WithDeadline(context.Background(), time.Now().Add(time.Hour))
+			timer := time.AfterFunc(30*time.Millisecond, cancel)
+			cx, stop = c, func() { timer.Stop(); cancel() }
+		case "deadline+parent-cancel":
+			parent, pcancel := context.WithCancel(context.Background())
+			c, cancel := context.WithDeadline(parent, time.Now().Add(time.Hour))
+			timer := time.AfterFunc(30*time.Millisecond, pcancel)
+			cx, stop = c, func() { timer.Stop(); cancel(); pcancel() }
+		default:
+			c, cancel := context.WithCancel(context.Background())
+			timer := time.AfterFunc(30*time.Millisecond, cancel)
+			cx, stop = c, func() { timer.Stop(); cancel() }
+		}
+		r6 := rt.New(rt.Opts{})
+		t6 := r6.RunCtx(cx, "sleep", `(time:sleep (time:parse-duration "2s"))`)
+		stop()
+		w.Eval(1)
+		if !t6.IsErr || t6.Cond != "context-cancelled" {
+			w.Violation("sleep-not-cancelled:"+variant, "a pending time:sleep of 2s whose context was cancelled after 30ms returned "+t6.Outcome()+" "+t6.Msg, "")
+			return
+		}
+		w.CoverKey("sleep-cancel|" + variant)
+	}
 	// a load called from any environment (top level, let, function, callback, handler)
 	// is cancelled like the evaluation that called it
 	for _, shape := range []string{"%s", "(let ((x 1)) %s)", "(progn (defun f () %s 1) (f))", "(map () (lambda (x) %s) '(1))", "(flet ((g () %s)) (g))", "(handler-bind ((my-err (lambda (c &rest a) 0))) %s)"} {
@@ -525,6 +558,11 @@ func (c *c04DoneCtx) Done() <-chan struct{} {
 	}
 	return c.done
 }
+
+// c04DeadlineCtx additionally reports a deadline one hour away.
+type c04DeadlineCtx struct{ c04DoneCtx }
+
+func (c *c04DeadlineCtx) Deadline() (time.Time, bool) { return time.Now().Add(time.Hour), true }
 
 func (c *c04DoneCtx) Err() error {
 	if c.closed {
